@@ -12,7 +12,7 @@ func checkC19(r *Run) {
 		return
 	}
 	ruleA25(r, p)
-	r.Floor("A25", 18)
+	r.Floor("A25", 30)
 	if r.Tier == "thorough" {
 		if pb := r.Use("B"); pb != nil {
 			ruleA25(r, pb)
